@@ -28,7 +28,7 @@ INFO = {
         'schedules': 'two threads, six pairs of calls (rate with per-call options / ranks / scores / tau=0, the three predictions) per model, concrete games; '
                      'all interleavings of the recorded shared accesses (z3 Int positions)',
     },
-    'outside': ['PYTHONHASHSEED itself (not varied; see (iii)/(iv))', 'sequences longer than 2 (follow from the empty write set by induction)',
+    'outside': ['PYTHONHASHSEED itself (not varied; see (iii)/(iv))', 'sequences longer than 2: covered by induction only because every call is shown to leave the model and every shared container unwritten (obligation in the schedule jobs); with a benign memo present they would be inconclusive',
                 'three or more threads; preemption between two shared accesses that matters only through state the recorder does not see '
                 '(re-bound module globals are detected by snapshot and then only tried on fixed interleavings; C-level state)'],
     'stubs': None,
